@@ -22,6 +22,35 @@ theorem C01_run_partition (E : Env) (order : List Nat) (hnd : order.Nodup) :
 theorem C01_step_adds_exactly (E : Env) (roots : List Tree) (p : Nat) :
     (pixelsL (step E roots p)).Perm (p :: pixelsL roots) := step_pixels E roots p
 
+/-- **C01 (assigned iff above threshold, modulo dropped parentless leaves).** After the whole of
+`compute` (loop, `_make_trunk`, re-labelling) a pixel belongs to some structure iff it was
+processed (= is a number above the threshold, hypothesis checked per run on the recorded order)
+and does not lie in a parentless leaf failing the value-less criteria; … -/
+theorem C01_assigned_iff (E : Env) (order : List Nat) (hnd : order.Nodup) (p : Nat) :
+    p ∈ pixelsL (compute E order) ↔ (p ∈ order ∧ ¬ ∃ t ∈ droppedOrphans E (run E order), p ∈ t.pixels) :=
+  P9.compute_assigned_iff E order hnd p
+
+/-- … such a leaf is dropped as a whole, and it is a root (an isolated region), a leaf, and fails
+the criteria; … -/
+theorem C01_dropped_whole (E : Env) (order : List Nat) :
+    ∀ t ∈ droppedOrphans E (run E order), t ∈ run E order ∧ t.kids = [] ∧ E.indepOrphan t = false :=
+  P9.dropped_is_whole_leaf E order
+
+/-- … and every assigned pixel belongs to exactly one structure's own pixels. -/
+theorem C01_assigned_once (E : Env) (order : List Nat) (hnd : order.Nodup) :
+    (pixelsL (compute E order)).Nodup := P9.compute_pixels_nodup E order hnd
+
+/-- **C01 (default threshold, integer data).** The repaired default `int(min) - 1` lies strictly
+below the minimum for every integer; the old default (computed in the array's dtype) did so
+exactly when `min - 1` was representable, and wrapped at the minimum of the dtype. -/
+theorem C01_default_min_lt (m : Int) : defaultMinNew m < m := P9.defaultMinNew_lt m
+theorem C01_default_min_old_iff (bits : Nat) (signed : Bool) (m : Int) (hb : 0 < bits)
+    (hm : inRange bits signed m = true) :
+    defaultMinOld bits signed m < m ↔ inRange bits signed (m - 1) = true :=
+  P9.defaultMinOld_ok_iff bits signed m hb hm
+theorem C01_default_min_old_witness : ¬ (defaultMinOld 8 false 0 < 0) ∧ ¬ (defaultMinOld 8 true (-128) < -128) :=
+  ⟨P9.defaultMinOld_wraps_uint8, P9.defaultMinOld_wraps_int8⟩
+
 -- non-vacuity: a 6-pixel row with a three-level tree; the order is duplicate-free
 example : let E := envOf (fun p => [1, 10, 5, 9, 2, 8][p]!) (Grid.nbrs [6] []) []
     [1, 3, 5, 2, 4, 0].Nodup ∧ (pixelsL (run E [1, 3, 5, 2, 4, 0])).length = 6 := by decide
